@@ -660,7 +660,24 @@ def run(ctx):
             ok = rs is not None and rs.get("ok") is not None
             if ok:
                 outs = shared.eval_from(p, rs["ok"])
-                ok = bool(outs) and all(st.read_key((0,))[0] == "some" for pp, st in outs)
+                dl_ = p.term(fs[0])["dest"]["l"]
+                # (the answer is `Some(..)` of a closure that is asked per coding, or the parsed coding itself returned from the loop)
+                ok = bool(outs) and all(st.read_key((0,))[0] == "some" or st.read_key((0,)) == ("init", (dl_, "as Ok", ".0")) for pp, st in outs)
+                # ... and the codings are tried in the order of the sorted list: the loop draws from a plain forward iteration over the very
+                # vector that was sorted (no `rev()`, `skip()`, other collection in between)
+                def strip_(x):
+                    for _ in range(16):
+                        if x[0] in ("ref", "deref"):
+                            x = x[1]
+                        elif x[0] == "call" and x[2] and re.search(r"(::into_iter|::iter|::iter_mut|::deref|::deref_mut|::as_slice|::as_mut_slice|::by_ref)$", x[1]):
+                            x = x[2][0]
+                        else:
+                            break
+                    return origin_str(x)
+                arg_o = p.origin(p.term(fs[0])["args"][0])
+                nexts = [x for x in origin_walk(arg_o) if x[0] == "call" and x[1].endswith("::next") and x[2]]
+                in_order = bool(nexts) and bool(sb0) and all(strip_(x[2][0]) == strip_(p.origin(sb0[0][1]["args"][0])) for x in nexts)
+                ok = ok and in_order
         if not ok:
             # `sorted.iter().find_map(|v| TransferEncoding::from_str(v.0).ok())`: the first element for which the parser succeeds
             for bb, t in p.calls():
